@@ -103,7 +103,7 @@ func init() {
 	})
 	register(&propDef{
 		id:      "C30",
-		explain: "Decides structural/arithmetical necessary conditions of the integer codecs on the analysed GOARCH (amd64; thorough adds 386): (R1) the constants the overflow guard relies on satisfy, in exact big-integer arithmetic, maxIntDiv10 = floor(MaxInt/10), 10^maxSafeIntDigits-1 <= MaxInt, 10*maxIntDiv10+9 < 2^wordsize (so one sign test is decisive), 16^maxHexIntChars-1 <= MaxInt and the hex buffer holds every digit of MaxInt; (R2) in parseUintBuf every path that carries the new accumulator into the next iteration has passed either the 'few digits' test or both overflow tests with the overflow outcome excluded; (R3) in readHexInt the shift-accumulate is only reached with the digit count below maxHexIntChars; (R4) ParseUint returns an error when parseUintBuf consumed less than the whole input; (R5) AppendUint and writeHexInt reject negative input before formatting. NOT decided: the accepted language of ParseUint as a whole, AppendUint/ParseUint being inverse, values of chunk sizes.",
+		explain: "Decides structural/arithmetical necessary conditions of the integer codecs on the analysed GOARCH (amd64; thorough adds 386): (R1) the constants the overflow guard relies on satisfy, in exact big-integer arithmetic, maxIntDiv10 = floor(MaxInt/10), 10^maxSafeIntDigits-1 <= MaxInt, 10*maxIntDiv10+9 < 2^wordsize (so one sign test is decisive), 16^maxHexIntChars-1 <= MaxInt and the hex buffer holds every digit of MaxInt; (R2) in parseUintBuf every path that carries the new accumulator into the next iteration has passed either the 'few digits' test or both overflow tests with the overflow outcome excluded; (R3) in readHexInt the shift-accumulate is only reached with the digit count below maxHexIntChars; (R4) ParseUint returns an error when parseUintBuf consumed less than the whole input; (R5) AppendUint and writeHexInt reject negative input before formatting; (R6) in the integer formatters a scratch buffer taken from a pool is given back only after its last use: once Put was called nothing that derives from the pooled value (the asserted buffer, a slice of it) is read or written, since the next Get may hand it to a concurrent or re-entrant formatter that overwrites the digits. NOT decided: the accepted language of ParseUint as a whole, AppendUint/ParseUint being inverse, values of chunk sizes.",
 		run:     runC30,
 	})
 }
@@ -529,6 +529,7 @@ func evalCmp(op token.Token, entry, k int64, entryLeft bool) bool {
 // ---------------------------------------------------------------- C30
 
 func runC30(p *Prog, r *Report) {
+	scratchNotRecycledEarly(p, r)
 	pkg := p.byPath[rootPkg].Types
 	wordBits := 64
 	if p.Arch == "386" || p.Arch == "arm" {
@@ -1013,4 +1014,112 @@ func checkNegativeRejected(p *Prog, r *Report, fn *ssa.Function) {
 		}
 	}
 	r.Check("R5", fn.Name()+": negative input rejected first", ok, p.Pos(fn.Pos()), "entry block tests n < 0 and leaves (panic/return) before formatting")
+}
+
+// scratchNotRecycledEarly (C30.R6): no use of a pooled scratch buffer after it
+// went back to its pool, in the functions of the integer codecs.
+func scratchNotRecycledEarly(p *Prog, r *Report) {
+	n := 0
+	for _, fn := range p.funcsIn("") {
+		file := p.Fset.Position(fn.Pos()).Filename
+		if !strings.Contains(file, "bytesconv") {
+			continue
+		}
+		for _, b := range fn.Blocks {
+			for _, in := range b.Instrs {
+				c, ok := in.(ssa.CallInstruction)
+				if !ok {
+					continue
+				}
+				f := c.Common().StaticCallee()
+				if f == nil || f.Name() != "Put" || recvTypeName(f) != "Pool" || len(c.Common().Args) != 2 {
+					continue
+				}
+				n++
+				// everything that shares storage with the pooled value
+				alias := map[ssa.Value]bool{c.Common().Args[1]: true}
+				for changed := true; changed; {
+					changed = false
+					add := func(v ssa.Value) {
+						if v != nil && !alias[v] {
+							alias[v] = true
+							changed = true
+						}
+					}
+					for v := range alias {
+						switch w := v.(type) {
+						case *ssa.MakeInterface:
+							add(w.X)
+						case *ssa.TypeAssert:
+							add(w.X)
+						case *ssa.Extract:
+							add(w.Tuple)
+						case *ssa.Slice:
+							add(w.X)
+						case *ssa.UnOp:
+							add(w.X)
+						}
+					}
+					for _, bb := range fn.Blocks {
+						for _, i2 := range bb.Instrs {
+							v, isV := i2.(ssa.Value)
+							if !isV || alias[v] {
+								continue
+							}
+							switch w := i2.(type) {
+							case *ssa.TypeAssert:
+								if alias[w.X] {
+									add(v)
+								}
+							case *ssa.Extract:
+								if alias[w.Tuple] {
+									add(v)
+								}
+							case *ssa.Slice:
+								if alias[w.X] {
+									add(v)
+								}
+							case *ssa.IndexAddr:
+								if alias[w.X] {
+									add(v)
+								}
+							case *ssa.UnOp:
+								if w.Op == token.MUL && alias[w.X] {
+									add(v)
+								}
+							case *ssa.Phi:
+								for _, e := range w.Edges {
+									if alias[e] {
+										add(v)
+									}
+								}
+							}
+						}
+					}
+				}
+				hit, path := reachAvoiding(fn, in, func(i ssa.Instruction) bool {
+					if i == in {
+						return false
+					}
+					var ops []*ssa.Value
+					for _, op := range i.Operands(ops) {
+						if op != nil && *op != nil && alias[*op] {
+							if _, isDbg := i.(*ssa.DebugRef); isDbg {
+								continue
+							}
+							return true
+						}
+					}
+					return false
+				}, nil, nil)
+				pos := p.Pos(in.Pos())
+				if hit != nil {
+					pos = p.Pos(hit.Pos())
+				}
+				r.Check("R6", fmt.Sprintf("%s: the pooled scratch buffer is not touched after it was given back to its pool", funcName(fn)), hit == nil, pos,
+					"the buffer (or a slice of it) is used after Pool.Put: the next Get may hand it to another formatter, which overwrites the digits before they are written out, so a chunk size on the wire differs from the chunk's length", blocksString(p, path)...)
+			}
+		}
+	}
+	r.Floor("R6", "Pool.Put calls in the integer codecs", n, 1)
 }
